@@ -250,6 +250,10 @@ def gen_spec(rng: random.Random, feat=None):
                 need = 'default' not in p
                 if nic in vals:
                     v = vals[nic]
+                elif p.get('drop_default') and p.get('default') is not None and rng.random() < 0.35:
+                    # the default value spelled out in the config (it still counts as the default: python equality)
+                    v = copy.deepcopy(p['default'])
+                    vals[nic] = v
                 elif need or rng.random() < 0.5:
                     if feat['objects'] and rng.random() < 0.15:
                         v = gen_objdef(rng, feat, placeholders)
